@@ -153,6 +153,27 @@ def step (line : String) : String :=
       let s := if Scriptlet.unquote lit == some arg then hexOf out else "does-not-parse-back"
       ans (hexOf out) s true
     | none => "bad-op"
+  -- C17: key extraction and the generic class/id lookup
+  | ["key", sel] => match unhex sel with
+      | some sel => let o := optHex (Cosmetic.keyFromSelector sel); ans o o (isAsciiStr sel)
+      | none => "bad-op"
+  | "cgen" :: classes :: ids :: exc :: rules =>
+    match unhexList classes, unhexList ids, unhexList exc, rules.mapM parseCRule with
+    | some cl, some ids, some exc, some rs =>
+      let c := Cosmetic.Cache.fromRules rs
+      let o := showStrSet (c.hiddenClassId cl ids exc)
+      ans o o true
+    | _, _, _, _ => "bad-op"
+  -- C16: per-site resources
+  | "chost" :: host :: dom :: gh :: rules =>
+    match unhex host, unhex dom, rules.mapM parseCRule with
+    | some host, some dom, some rs =>
+      let c := Cosmetic.Cache.fromRules rs
+      let r := c.hostnameResources host dom (gh == "1")
+      let o := s!"H={showStrSet r.hide} P={showStrSet r.procedural} E={showStrSet r.exceptions} I={showStrSet (r.injections.map (·.1))}"
+      let o := o.replace " " "/"
+      ans o o (isAsciiStr host)
+    | _, _, _ => "bad-op"
   | "rmseq" :: ops =>
     match ops.foldlM rmOp (({} : Cache.RM), [], [], [], true) with
     | some (_, _, outs, specs, noReuse) =>
